@@ -872,6 +872,115 @@ theorem source_system_txs :
     prepareSystemTxsMeta = ["StateRoot: stateRoot", "EventsRoot: eventsRoot"] :=
   ⟨rfl, rfl, rfl⟩
 
+
+/-! ## Replica-local inputs
+
+Everything a node has that its peers do not — its own identity (`OwnTxSigner`,
+`OwnTxSignerAddress`, `identity`), its local configuration (`LocalMinGasPrice`, halt height/epoch)
+and its local upgrade backend — must not influence what block delivery computes.  `tools/gen
+muxfacts` lists every use of these inside the abci package, the abci API package and the
+applications, with the conditions of the enclosing `if`s.  Each use is classified below; a new
+use, or a changed guard, breaks `local_inputs_classified` until it has been read.  In particular
+a use that is neither an accessor, nor start-up construction, nor proposer-only, nor a node halt,
+nor the local upgrade store has to sit under a positive `IsCheckOnly()` guard
+(`local_inputs_checktx_guarded`), i.e. be mempool-only. -/
+
+/-- Why a use of a replica-local input cannot make delivery results differ between replicas. -/
+inductive LocalClass where
+  | accessor
+  | construction
+  /-- Mempool admission (CheckTx) only. -/
+  | checkTxOnly
+  /-- PrepareProposal only; validators re-check what the proposer produced. -/
+  | proposerOnly
+  /-- Stops the node; never alters a response. -/
+  | localHalt
+  /-- Local upgrade descriptor store; errors logged or node stopped. -/
+  | localUpgrade
+  deriving DecidableEq, Repr
+
+def expectedLocal : List (Generated.MuxFacts.LocalUse × LocalClass × String) := [
+  (⟨"go/consensus/cometbft/abci/mux.go", "abciMux.BeginBlock", "mux.state.Upgrader", "upgrader != nil", false, 0⟩,
+    .localUpgrade, "local upgrade store: descriptors are submitted/cancelled with errors only logged, or the node stops for the upgrade (ErrStopForUpgrade); no response depends on it"),
+  (⟨"go/consensus/cometbft/abci/mux.go", "abciMux.BeginBlock", "mux.state.shouldLocalHalt", "", false, 0⟩,
+    .localHalt, "operator-configured halt height/epoch: stops this node (haltForUpgrade), never changes a response"),
+  (⟨"go/consensus/cometbft/abci/mux.go", "abciMux.EndBlock", "mux.state.Upgrader", "upgrader != nil", false, 0⟩,
+    .localUpgrade, "local upgrade store: descriptors are submitted/cancelled with errors only logged, or the node stops for the upgrade (ErrStopForUpgrade); no response depends on it"),
+  (⟨"go/consensus/cometbft/abci/state.go", "applicationState.LocalMinGasPrice", "s.minGasPrice", "", false, 0⟩,
+    .accessor, "accessor; its callers are the entries that matter"),
+  (⟨"go/consensus/cometbft/abci/state.go", "applicationState.OwnTxSigner", "s.ownTxSigner", "", false, 0⟩,
+    .accessor, "accessor; its callers are the entries that matter"),
+  (⟨"go/consensus/cometbft/abci/state.go", "applicationState.OwnTxSignerAddress", "s.ownTxSignerAddress", "", false, 0⟩,
+    .accessor, "accessor; its callers are the entries that matter"),
+  (⟨"go/consensus/cometbft/abci/state.go", "applicationState.Upgrader", "s.upgrader", "", false, 0⟩,
+    .accessor, "accessor; its callers are the entries that matter"),
+  (⟨"go/consensus/cometbft/abci/state.go", "newApplicationState", "cfg.MinGasPrice", "err != nil", false, 0⟩,
+    .construction, "copies the node configuration into the state object at start-up"),
+  (⟨"go/consensus/cometbft/abci/state.go", "newApplicationState", "cfg.HaltEpoch", "", false, 0⟩,
+    .construction, "copies the node configuration into the state object at start-up"),
+  (⟨"go/consensus/cometbft/abci/state.go", "newApplicationState", "cfg.HaltHeight", "", false, 0⟩,
+    .construction, "copies the node configuration into the state object at start-up"),
+  (⟨"go/consensus/cometbft/abci/state.go", "newApplicationState", "cfg.Identity", "", false, 0⟩,
+    .construction, "copies the node configuration into the state object at start-up"),
+  (⟨"go/consensus/cometbft/abci/state.go", "newApplicationState", "cfg.Identity", "", false, 1⟩,
+    .construction, "copies the node configuration into the state object at start-up"),
+  (⟨"go/consensus/cometbft/abci/state.go", "newApplicationState", "cfg.Identity", "", false, 2⟩,
+    .construction, "copies the node configuration into the state object at start-up"),
+  (⟨"go/consensus/cometbft/abci/system.go", "abciMux.prepareSystemTxs", "mux.state.identity", "", false, 0⟩,
+    .proposerOnly, "PrepareProposal signs the metadata transaction with the node key; every validator checks the signer against the header proposer (model: metaTx self, Env.selfProposer)"),
+  (⟨"go/consensus/cometbft/abci/transaction.go", "abciMux.executeTx", "mux.state.Upgrader", "upgrader != nil && ctx.IsCheckOnly()", true, 0⟩,
+    .checkTxOnly, "guarded by a positive IsCheckOnly(): mempool admission only"),
+  (⟨"go/consensus/cometbft/abci/upgrade.go", "abciMux.maybeHaltForUpgrade", "mux.state.Upgrader", "", false, 0⟩,
+    .localUpgrade, "local upgrade store: descriptors are submitted/cancelled with errors only logged, or the node stops for the upgrade (ErrStopForUpgrade); no response depends on it"),
+  (⟨"go/consensus/cometbft/abci/upgrade.go", "abciMux.maybeHaltForUpgrade", "mux.state.shouldLocalHalt", "", false, 0⟩,
+    .localHalt, "operator-configured halt height/epoch: stops this node (haltForUpgrade), never changes a response"),
+  (⟨"go/consensus/cometbft/abci/upgrade.go", "applicationState.shouldLocalHalt", "s.haltHeight", "", false, 0⟩,
+    .localHalt, "operator-configured halt height/epoch: stops this node (haltForUpgrade), never changes a response"),
+  (⟨"go/consensus/cometbft/abci/upgrade.go", "applicationState.shouldLocalHalt", "s.haltHeight", "", false, 1⟩,
+    .localHalt, "operator-configured halt height/epoch: stops this node (haltForUpgrade), never changes a response"),
+  (⟨"go/consensus/cometbft/abci/upgrade.go", "applicationState.shouldLocalHalt", "s.haltEpoch", "!(s.haltHeight != 0 && uint64(blockHeight) >= s.haltHeight)", false, 0⟩,
+    .localHalt, "operator-configured halt height/epoch: stops this node (haltForUpgrade), never changes a response"),
+  (⟨"go/consensus/cometbft/abci/upgrade.go", "applicationState.shouldLocalHalt", "s.haltEpoch", "!(s.haltHeight != 0 && uint64(blockHeight) >= s.haltHeight)", false, 1⟩,
+    .localHalt, "operator-configured halt height/epoch: stops this node (haltForUpgrade), never changes a response"),
+  (⟨"go/consensus/cometbft/abci/upgrade.go", "applicationState.shouldLocalHalt", "s.haltEpoch", "!(s.haltHeight != 0 && uint64(blockHeight) >= s.haltHeight)", false, 2⟩,
+    .localHalt, "operator-configured halt height/epoch: stops this node (haltForUpgrade), never changes a response"),
+  (⟨"go/consensus/cometbft/api/state.go", "NewMockApplicationState", "cfg.OwnTxSigner", "", false, 0⟩,
+    .construction, "copies the node configuration into the state object at start-up"),
+  (⟨"go/consensus/cometbft/api/state.go", "mockApplicationState.OwnTxSigner", "ms.cfg.OwnTxSigner", "", false, 0⟩,
+    .accessor, "accessor; its callers are the entries that matter"),
+  (⟨"go/consensus/cometbft/api/state.go", "mockApplicationState.OwnTxSignerAddress", "ms.ownTxSignerAddress", "", false, 0⟩,
+    .accessor, "accessor; its callers are the entries that matter"),
+  (⟨"go/consensus/cometbft/apps/governance/governance.go", "Application.BeginBlock", "ctx.AppState().Upgrader", "upgrader != nil", false, 0⟩,
+    .localUpgrade, "local upgrade store: descriptors are submitted/cancelled with errors only logged, or the node stops for the upgrade (ErrStopForUpgrade); no response depends on it"),
+  (⟨"go/consensus/cometbft/apps/governance/governance.go", "Application.executeProposal", "ctx.AppState().Upgrader", "upgrader != nil", false, 0⟩,
+    .localUpgrade, "local upgrade store: descriptors are submitted/cancelled with errors only logged, or the node stops for the upgrade (ErrStopForUpgrade); no response depends on it"),
+  (⟨"go/consensus/cometbft/apps/governance/governance.go", "Application.executeProposal", "ctx.AppState().Upgrader", "upgrader != nil", false, 1⟩,
+    .localUpgrade, "local upgrade store: descriptors are submitted/cancelled with errors only logged, or the node stops for the upgrade (ErrStopForUpgrade); no response depends on it"),
+  (⟨"go/consensus/cometbft/apps/governance/messages.go", "Application.completeStateSync", "ctx.AppState().Upgrader", "upgrader != nil", false, 0⟩,
+    .localUpgrade, "local upgrade store: descriptors are submitted/cancelled with errors only logged, or the node stops for the upgrade (ErrStopForUpgrade); no response depends on it"),
+  (⟨"go/consensus/cometbft/apps/staking/state/gas.go", "AuthenticateAndPayFees", "ctx.AppState().OwnTxSignerAddress", "ctx.IsCheckOnly()", true, 0⟩,
+    .checkTxOnly, "guarded by a positive IsCheckOnly(): mempool admission only"),
+  (⟨"go/consensus/cometbft/apps/staking/state/gas.go", "AuthenticateAndPayFees", "ctx.AppState().LocalMinGasPrice", "ctx.IsCheckOnly() && !ctx.AppState().OwnTxSignerAddress().Equal(addr)", true, 0⟩,
+    .checkTxOnly, "guarded by a positive IsCheckOnly(): mempool admission only")
+]
+
+/-- **Every use of a replica-local input is known and classified.**  A new use (for instance the
+node's own address consulted while a transaction is delivered) breaks the build. -/
+theorem local_inputs_classified : Generated.MuxFacts.localInputUses = expectedLocal.map (·.1) := by decide
+
+/-- Uses classified mempool-only really sit under a positive `IsCheckOnly()` guard in the source. -/
+theorem local_inputs_checktx_guarded :
+    expectedLocal.all (fun e => e.2.1 != LocalClass.checkTxOnly || e.1.checkOnly) = true := by decide
+
+/-- The identity and local-configuration accessors are consumed on delivery paths nowhere: outside
+accessors and construction, `OwnTxSigner*` and `LocalMinGasPrice` occur only mempool-only. -/
+theorem own_identity_only_in_checktx :
+    expectedLocal.all (fun e =>
+      !(e.1.use == "ctx.AppState().OwnTxSignerAddress" || e.1.use == "ctx.AppState().LocalMinGasPrice" ||
+        e.1.use == "mux.state.OwnTxSignerAddress" || e.1.use == "mux.state.OwnTxSigner" ||
+        e.1.use == "mux.state.LocalMinGasPrice" || e.1.use == "ctx.AppState().OwnTxSigner") ||
+      e.2.1 == LocalClass.checkTxOnly) = true := by decide
+
 /-! ## The regenerated map-range site ledger
 
 `tools/gen maprange` lists (with go/types) every place in the consensus-critical packages where
